@@ -89,6 +89,7 @@ structure Rel (s s' : St) (rel : List (Name × Target)) : Prop where
   do_ : ∀ n t, t ∈ (s'.node n).do_ ↔ t ∈ (s.node n).do_ ∨ (n, t) ∈ rel
   todo : ∀ n t, t ∈ (s'.node n).todo → t ∈ (s.node n).todo
   work : ∀ n t, busy s' n t ↔ busy s n t
+  gone : ∀ n t, (n, t) ∈ rel → t ∉ (s'.node n).todo
 
 theorem releaseJob_rel (g : Graph) (s : St) (x : Name) :
     Rel s (releaseJob g s x).1 (releaseJob g s x).2 := by
@@ -117,6 +118,13 @@ theorem releaseJob_rel (g : Graph) (s : St) (x : Name) :
     · subst hn; simp; intro h _; exact h
     · simp [setNode_other _ _ _ _ hn]
   · exact hsame.2
+  · intro n t hnt
+    rw [releaseJob_released] at hnt
+    obtain ⟨h1, h2⟩ := hnt
+    simp only at h1 h2
+    subst h1
+    unfold releaseJob
+    simp [h2]
 
 theorem Rel.refl (s : St) : Rel s s [] := by
   constructor <;> simp
@@ -131,6 +139,11 @@ theorem Rel.trans {s s' s'' : St} {r r' : List (Name × Target)} (h : Rel s s' r
   · intro n t; rw [h'.do_, h.do_]; simp [or_assoc]
   · intro n t ht; exact h.todo n t (h'.todo n t ht)
   · intro n t; rw [h'.work, h.work]
+  · intro n t hnt
+    rw [List.mem_append] at hnt
+    rcases hnt with c | c
+    · exact fun hx => h.gone n t c (h'.todo n t hx)
+    · exact h'.gone n t c
 
 theorem releaseAll_rel (g : Graph) (s : St) (q : List Name) :
     Rel s (releaseAll g s q).1 (releaseAll g s q).2 := by
